@@ -45,11 +45,15 @@ static long demand;
 static unsigned cur;                       /* model thread that is executing (0 = T0, 1 = T1) */
 static unsigned K1, K2, bcount; static int t1;   /* T1: 0 not started, 1 inside (scope alive), 2 returned, 3 found no slot */
 #define OUT_OF_ARENA (~(u64)0)
-static void point(void) {                 /* boundary call of T0: T1 may run its enter and/or its leave here */
+static unsigned phase;                     /* 0: T0 is in vp_enter, 1: T0 is in vp_leave (set by the driver) */
+/* boundary call of T0 with a static identity (concrete at every call site, so that T1's code is placed exactly once):
+   enter: 1 occupied, 2 adjust_demand, 3/4 before/after the entry callback body, 5 functor; 6 between enter and leave;
+   leave: 7/8 before/after the exit callback body, 9 adjust_demand, 10 notify_one. 0 = before T0 starts. */
+static void point(unsigned id) {
   if (cur != 0) return;
-  unsigned k = bcount++;
-  if (t1 == 0 && k == K1) { cur = 1; t1 = (vp_enter(A, &TDS[1], 1, (u8*)&SCOPE[1]) == OUT_OF_ARENA) ? 3 : 1; cur = 0; }
-  if (t1 == 1 && k >= K2) { cur = 1; vp_leave(1, (u8*)&SCOPE[1]); t1 = 2; cur = 0; }
+  bcount++;
+  if (t1 == 0 && id == K1) { cur = 1; t1 = (vp_enter(A, &TDS[1], 1, (u8*)&SCOPE[1]) == OUT_OF_ARENA) ? 3 : 1; cur = 0; }
+  if (t1 == 1 && id >= K2) { cur = 1; vp_leave(1, (u8*)&SCOPE[1]); t1 = 2; cur = 0; }
 }
 
 static void at_callback(unsigned tid, const char* unused) {
@@ -64,7 +68,7 @@ static void at_callback(unsigned tid, const char* unused) {
 /* user's on_scheduler_entry */
 void _ZN3tbb6detail2r113observer_list25do_notify_entry_observersERPNS1_14observer_proxyEb(olist_t* l, oproxy_t** last, u8 worker) {
   unsigned tid = cur;
-  point();
+  point(3);
   VP_ASSERT(vp_obs_arena(l) == A && !worker, "entry notification for the wrong arena / role");
   at_callback(tid, "");
   unsigned idx = vp_td_index(&TDS[tid]);
@@ -75,24 +79,24 @@ void _ZN3tbb6detail2r113observer_list25do_notify_entry_observersERPNS1_14observe
   VP_ASSERT(inside + 1 <= (int)NS, "more threads inside the arena than max_concurrency");
   entered[tid] = 1; eidx[tid] = (int)idx; n_entry[tid]++;
   *last = TAIL;                        /* contract: `last` = last observer proxy that was notified */
-  point();
+  point(4);
 }
 /* user's on_scheduler_exit */
 void _ZN3tbb6detail2r113observer_list24do_notify_exit_observersEPNS1_14observer_proxyEb(olist_t* l, oproxy_t* last, u8 worker) {
   unsigned tid = cur;
-  point();
+  point(7);
   VP_ASSERT(vp_obs_arena(l) == A && !worker && last == TAIL, "exit notification for the wrong arena / role / proxy");
   VP_ASSERT(entered[tid], "on_scheduler_exit without a preceding on_scheduler_entry on this thread");
   at_callback(tid, "");
   VP_ASSERT((int)vp_td_index(&TDS[tid]) == eidx[tid], "current_thread_index changed between entry and exit");
   entered[tid] = 0; n_exit[tid]++;
-  point();
+  point(8);
 }
 void _ZN3tbb6detail2r117threading_control13adjust_demandENS1_24threading_control_clientEii(tc_t* tc, struct S_class_tbb__detail__r1__pm_client* pc,
     struct S_class_tbb__detail__r1__thread_dispatcher_client* dc, u32 mandatory_delta, u32 workers_delta) {
   VP_ASSERT(mandatory_delta == 0 && ((int)workers_delta == 1 || (int)workers_delta == -1), "unexpected demand change from execute");
   demand += (int)workers_delta;
-  point();
+  point(phase ? 9 : 2);
 }
 /* concurrent_monitor::notify_one_relaxed on arena::my_exit_monitors (cut): wakes one thread waiting for a free slot; nobody
    waits in this model (a thread that finds no slot just records it). The call itself is counted: it must follow release(). */
@@ -101,20 +105,20 @@ void _ZN3tbb6detail2r123concurrent_monitor_baseImE18notify_one_relaxedEv(struct 
   unsigned tid = cur;
   VP_ASSERT(!entered[tid] && !vp_slot_occupied(A, (u32)eidx[tid]) || owner[eidx[tid]] != (int)tid, "waiters for a free slot woken before the leaving thread released its slot");
   notified++;
-  point();
+  point(10);
 }
 void _ZN3tbb6detail2d115waitable_atomicIbE18notify_one_relaxedEv(struct S_class_tbb__detail__d1__waitable_atomic* w) {}
 void vp_noslot(u32 tid) { noslot[tid] = 1; }
 void vp_occupied(u32 tid, u64 idx) {
   VP_ASSERT(idx < NS && !((PRE >> idx) & 1), "occupy_free_slot returned a foreign / out-of-range slot");
   if (idx < NS) owner[idx] = (int)tid;
-  point();
+  point(1);
 }
 void vp_body(u32 tid, u64 idx) {
   VP_ASSERT(entered[tid] && eidx[tid] == (int)idx, "functor runs outside the entry/exit window of its thread");
   VP_ASSERT(vp_td_disp(&TDS[tid]) == &DISP[idx < NS ? idx : 0], "functor does not run on the slot's default task dispatcher");
   body[tid]++;
-  point();
+  point(5);
 }
 void vp_returned(u32 tid) {
   VP_ASSERT(!entered[tid] && n_entry[tid] == 1 && n_exit[tid] == 1, "execute returned without exactly one entry/exit observer pair");
@@ -133,14 +137,23 @@ int main(void) {
   for (unsigned i = 0; i < NS; i++) { owner[i] = -1; if ((PRE >> i) & 1) vp_slot_force(A, i, 1); }
   for (unsigned t = 0; t < NT; t++) { vp_td_setup(&TDS[t], &OUTER[t], HOME, (u16)t, (u32)vp_nd(), (u32)vp_nd()); }
   /* the slot hint used by occupy_free_slot is my_arena_index = the thread's index in its home arena (tid) */
+#ifdef CK1   /* placement concrete per query (scenario) */
+  K1 = CK1; K2 = CK2;
+#else
   K1 = (unsigned)vp_nd_range(0, NPOINTS); K2 = (unsigned)vp_nd_range(0, NPOINTS);
   __CPROVER_assume(K1 <= K2);
+#endif
   cur = 0;
-  point();                                                      /* T1 may come first */
+  point(0);                                                     /* T1 may come first */
+  phase = 0;
   u64 i0 = vp_enter(A, &TDS[0], 0, (u8*)&SCOPE[0]);
-  point();
+  point(6);
+  phase = 1;
   if (i0 != OUT_OF_ARENA) vp_leave(0, (u8*)&SCOPE[0]);
   VP_ASSERT(bcount <= NPOINTS, "harness: more boundary calls than NPOINTS (raise it)");
+#ifdef VP_NATIVE
+  printf("bcount=%u\n", bcount);
+#endif
   /* T1 runs / finishes after T0 if it has not done so */
   cur = 1;
   if (t1 == 0) t1 = (vp_enter(A, &TDS[1], 1, (u8*)&SCOPE[1]) == OUT_OF_ARENA) ? 3 : 1;
